@@ -1386,7 +1386,8 @@ fn is_delimiter(c: u8) -> bool {
 
 // This implements the <sign subsequent> nonterminal of R7RS 7.1.1
 fn is_sign_subsequent(c: u8) -> bool {
-    c.is_ascii_alphabetic() || b"!$%&*/:<=>?@^_~-+@".contains(&c)
+    // A byte >= 0x80 starts a non-ASCII character, which may be a letter (an <initial>).
+    c.is_ascii_alphabetic() || c >= 0x80 || b"!$%&*/:<=>?@^_~-+@".contains(&c)
 }
 
 #[cfg(feature = "fast-float-parsing")]
